@@ -38,10 +38,19 @@ static std::unique_ptr<MapT> make(int kind) {
 
 // history: n insertions (distinct ids are the harness's business), sort, [kind 3: switch_to_dense], then look up `probe` both ways.
 // rc of get(): 0 found (*gx,*gy), 1 not_found.  get_noexcept() result in *nx,*ny.  *size = size()
+// with a split (verif_map_split) the history is: the first `split` insertions, sort, a lookup, the remaining insertions, sort again
+static unsigned g_split = ~0U;
+ENTRY void verif_map_split(unsigned split) { g_split = split; }
 ENTRY int verif_map(int kind, const unsigned long* ids, const int* xy, unsigned n, unsigned long probe, int* gx, int* gy, int* nx, int* ny, unsigned long* size) {
     auto map = make(kind);
-    for (unsigned i = 0; i < n; ++i) map->set(ids[i], Location{xy[2 * i], xy[2 * i + 1]});
+    const unsigned first = g_split < n ? g_split : n;
+    for (unsigned i = 0; i < first; ++i) map->set(ids[i], Location{xy[2 * i], xy[2 * i + 1]});
     map->sort();
+    if (first < n) {
+        (void)map->get_noexcept(probe);
+        for (unsigned i = first; i < n; ++i) map->set(ids[i], Location{xy[2 * i], xy[2 * i + 1]});
+        map->sort();
+    }
     if (kind == 3) static_cast<index::map::FlexMem<Id, Location>*>(map.get())->switch_to_dense();
     *size = map->size();
     const Location ne = map->get_noexcept(probe); *nx = ne.x(); *ny = ne.y();
